@@ -1,6 +1,7 @@
 package verifsim
 
 import (
+	"github.com/sanonone/kektordb/pkg/core/hnsw"
 	"fmt"
 	"path/filepath"
 	"sort"
@@ -37,6 +38,11 @@ func c12Program(w *World) (setup []Op, tasks [][]Op) {
 		}
 		setup = append(setup, Op{K: "link", Idx: c12Index, ID: pick(r, c12Nodes), ID2: pick(r, c12Nodes), Rel: pick(r, c12Rels[:2]), Inv: inv, W: 1})
 	}
+	// half of the runs: the index has a graph retention and a graph vacuum runs before anything is deleted
+	// (nothing is old enough to be pruned; the vacuum only tidies up nodes)
+	if r.Intn(2) == 0 {
+		setup = append(setup, Op{K: "graphvacuum"})
+	}
 	// deleter(s)
 	nd := 1 + r.Intn(2)
 	perm := r.Perm(len(c12Nodes))
@@ -66,7 +72,7 @@ func c12Program(w *World) (setup []Op, tasks [][]Op) {
 	if r.Intn(2) == 0 {
 		var a []Op
 		for i := 0; i < 1+r.Intn(3); i++ {
-			a = append(a, Op{K: pick(r, []string{"snapshot", "rewrite", "flush"})})
+			a = append(a, Op{K: pick(r, []string{"snapshot", "rewrite", "flush", "graphvacuum"})})
 		}
 		tasks = append(tasks, a)
 	}
@@ -293,7 +299,15 @@ func runC12(w *World, tr *Trace) {
 		if err := w.openEngine(); err != nil {
 			panic(harnessErr{"initial open: " + err.Error()})
 		}
-		if err := w.E.VCreate(c12Index, "euclidean", 8, 40, "float32", "", nil, nil, nil); err != nil {
+		var maint *hnsw.AutoMaintenanceConfig
+		for _, op := range setup {
+			if op.K == "graphvacuum" {
+				m := hnsw.DefaultMaintenanceConfig()
+				m.GraphRetention = hnsw.Duration(time.Hour)
+				maint = &m
+			}
+		}
+		if err := w.E.VCreate(c12Index, "euclidean", 8, 40, "float32", "", maint, nil, nil); err != nil {
 			panic(harnessErr{"create: " + err.Error()})
 		}
 		for _, op := range setup {
